@@ -5,6 +5,11 @@
 (* read it back as the document (RoundTrip), and each complete file is printed for lopdf to load. *)
 EXTENDS SyntaxProducer, Revisions, TLC, Json, IOUtils
 
+\* TLC orders record fields by first mention while parsing (root module first): the kind field `k` must come
+\* before the payload fields so that object values of different kinds are unequal without their payloads
+\* ever being compared (a function-valued `v` against a sequence-valued one is a TLC evaluation error).
+KindFirst_Gen_File(o) == <<o.k, o.neg, o.v, o.w>>
+
 Docs == ndJsonDeserialize(IOEnv.DOCS)
 
 CONSTANTS Emit,
@@ -52,12 +57,13 @@ PlanXref ==
 
 PlanW ==
     /\ PlanStep("w")
-    /\ \E w \in WChoices, noindex \in BOOLEAN :
+    /\ \E w \in WChoices, noindex \in BOOLEAN, selfgap \in BOOLEAN :
+          /\ (selfgap => plan.k.xref \in {"stream1", "streamN"} /\ FreeBelow(TheDoc) # {})
           /\ (w[3] = 0 => MaxGen(TheDoc) = 0) /\ (w[3] = 1 => MaxGen(TheDoc) <= 255)   \* generations must fit field 3
           /\ (w[1] = 0 => plan.k.xref # "stream1")
           /\ ((w[1] = 0 \/ w[3] = 0) => ~HasComp(TheDoc))                                \* type-2 entries need fields 1 and 3
           /\ (plan.k.xref \in {"table1", "tableN"} => w = <<1, 2, 1>> /\ ~noindex)      \* irrelevant for tables
-          /\ plan' = [k |-> plan.k @@ [w |-> w, noindex |-> noindex]]
+          /\ plan' = [k |-> plan.k @@ [w |-> w, noindex |-> noindex, selfgap |-> selfgap]]
     /\ PlanNext("misc") /\ UNCHANGED <<out, offs, outer, moffs>>
 
 PlanMisc ==
@@ -121,7 +127,7 @@ RoundTrip ==
 
 EmitInv ==
     (Emit /\ Done) => PrintT(<<"REPLAY", ToJson([doc |-> di, bytes |-> out, xref |-> K.xref, w |-> K.w, order |-> K.order,
-                                                  junk |-> K.junk, bin |-> K.bin, sfilter |-> K.sfilter, pngft |-> K.pngft, ghost |-> K.ghost, nrevs |-> Len(Doc.revs), cuts |-> plan.cuts,
+                                                  junk |-> K.junk, bin |-> K.bin, sfilter |-> K.sfilter, pngft |-> K.pngft, ghost |-> K.ghost, selfgap |-> K.selfgap, nrevs |-> Len(Doc.revs), cuts |-> plan.cuts,
                                                   ncomp |-> IF UseComp(K) THEN Cardinality(ContainerNums) ELSE 0,
                                                   redefined |-> Cardinality(Redefined(Doc.revs))])>>)
 =============================================================================
